@@ -1,2 +1,268 @@
-import Mtv.Envelope.Model
-import Mtv.Envelope.Spec
+/-
+  C04 — forged or altered packets are refused, never accepted and never crash the client.
+  Property theorems only. Model: Mtv/Envelope/Model.lean (`openClient` = `DeserializeEncrypted` after
+  pending_fixes/C04-declared-length-bounds.patch, `openClientOrig` = as found), specification:
+  Mtv/Envelope/Spec.lean, lemmas: Mtv/Lemmas/C03.lean, Mtv/Lemmas/C04.lean.
+
+  What these theorems do NOT say: that somebody without the auth key cannot produce a packet that
+  is accepted. They say the acceptance set is exactly the image of the specification's sealing
+  function under this key; getting from there to "a forger fails" needs the unforgeability of the
+  SHA-1/AES construction, which is cryptography and not a theorem here (DESIGN §4).
+-/
+import Mtv.Lemmas.C04
+namespace Mtv.Envelope
+open Mtv
+
+/-! ## never a panic -/
+
+/-- Clause "never panics": for every 256-byte key and EVERY byte string — shorter than the 24-byte
+header, not block aligned, decrypting to any declared length incl. negative and 2^31−1 —
+`DeserializeEncrypted` (repaired) returns a message or an error. No hypothesis on the primitives. -/
+theorem openClient_no_panic (P : Prims) (key data : Bytes) (hk : key.length = 256) :
+    (openClient P key data).isPanic = false :=
+  openClientG_fixed_no_panic P key data (by omega)
+
+example : (openClient toyPrims (zeros 256) [1, 2, 3]).isPanic = false :=
+  openClient_no_panic toyPrims (zeros 256) [1, 2, 3] (by simp)
+
+/-- … and so `transport.ReadMsg`'s dispatch never panics either, whatever the framing layer delivers -/
+theorem route_no_panic (P : Prims) (key data : Bytes) (hk : key.length = 256) :
+    ∀ site, route P key data ≠ .panic site := by
+  intro site h
+  unfold route at h
+  split at h
+  · cases h
+  · split at h
+    · have hp := openClient_no_panic P key data hk
+      split at h
+      · rename_i s hs; rw [hs] at hp; cases hp
+      · cases h
+      · split at h <;> cases h
+    · split at h
+      · cases h
+      · cases h
+      · split at h <;> cases h
+
+example : ∀ site, route toyPrims (zeros 256) [0, 0, 0, 0, 0, 0, 0, 0, 9] ≠ .panic site :=
+  route_no_panic toyPrims (zeros 256) _ (by simp)
+
+/-- Defect D3, on the model of the code as found: under any primitives satisfying the hypotheses
+there is a 256-byte key and a packet — right key id, msg_key arbitrary, ciphertext decrypting to a
+header with server-parity msg_id that declares −100 bytes — on which `DeserializeEncrypted` panics in
+`decrypted[0:32+messageLen]`, before the msg_key is compared. (The negation of `openClient_no_panic`
+for the unrepaired code; the harness replays such packets against the real code: corpus/c04.ops.) -/
+theorem openClientOrig_panics {P : Prims} (hP : P.Ok) :
+    ∃ key data, key.length = 256 ∧ openClientOrig P key data = .panic siteOpen := by
+  refine ⟨zeros 256, authKeyId P (zeros 256) ++ zeros 16 ++
+    P.igeE (Spec.keyIv P 8 (zeros 256) (zeros 16)).1 (Spec.keyIv P 8 (zeros 256) (zeros 16)).2 d3Plain,
+    by simp, ?_⟩
+  unfold openClientOrig
+  rw [openClientG_sealed hP .orig (zeros 256) (zeros 16) d3Plain (by simp) (by simp) (by decide) (by decide)]
+  exact openInner_orig_panics P _
+
+example : ∃ key data, key.length = 256 ∧ openClientOrig toyPrims key data = .panic siteOpen :=
+  openClientOrig_panics toyPrims_ok
+
+/-- Defect D3, second face: the code as found *accepts* a packet whose declared length (−1) lies
+outside the decrypted data, when the key holder computes the msg_key over the 31 bytes the slice
+expression then takes. (Negation of the `0 ≤ declared length` clause of `openClient_sound` for the
+unrepaired code.) -/
+theorem openClientOrig_accepts_negative_length {P : Prims} (hP : P.Ok) :
+    ∃ key data m, key.length = 256 ∧ openClientOrig P key data = .ok m ∧
+      ∃ plain, data.drop 24 = P.igeE (Spec.keyIv P 8 key ((data.drop 8).take 16)).1
+                   (Spec.keyIv P 8 key ((data.drop 8).take 16)).2 plain ∧
+        toSigned 32 (fromLE (Spec.substr plain 28 4)) = -1 := by
+  have hmk : (slice (P.H (d3PlainNeg1.take 31)) 4 20).length = 16 := by
+    simp [slice, hP.H_len]
+  have hA := authKeyId_length hP (zeros 256)
+  refine ⟨zeros 256, authKeyId P (zeros 256) ++ slice (P.H (d3PlainNeg1.take 31)) 4 20 ++
+    P.igeE (Spec.keyIv P 8 (zeros 256) (slice (P.H (d3PlainNeg1.take 31)) 4 20)).1
+      (Spec.keyIv P 8 (zeros 256) (slice (P.H (d3PlainNeg1.take 31)) 4 20)).2 d3PlainNeg1,
+    ⟨0, 0, 1, 0, []⟩, by simp, ?_, d3PlainNeg1, ?_, by decide⟩
+  · unfold openClientOrig
+    rw [openClientG_sealed hP .orig (zeros 256) _ d3PlainNeg1 (by simp) hmk (by decide) (by decide)]
+    exact openInner_orig_neg1 P
+  · obtain ⟨_, p2, p3⟩ := pkt_parts _ _ (P.igeE (Spec.keyIv P 8 (zeros 256) (slice (P.H (d3PlainNeg1.take 31)) 4 20)).1
+      (Spec.keyIv P 8 (zeros 256) (slice (P.H (d3PlainNeg1.take 31)) 4 20)).2 d3PlainNeg1) hA hmk
+    simp only [Spec.substr] at p2
+    rw [p3, p2]
+
+/-! ## an accepted packet is a valid one -/
+
+/-- Clause "an incoming packet yields a message only if its key id matches the session's auth key,
+its msg_key equals the SHA-1 digest of the decrypted header and body, its declared body length lies
+inside the decrypted data and its msg_id has server parity": whenever `DeserializeEncrypted`
+(repaired) returns a message `m` for any key and any bytes, then — with `plain` the IGE decryption
+of `data[24:]` under the server-direction key/IV of `data[8:24]` — the key id matches, the declared
+length is non-negative, equals `m`'s body length and `32 + length ≤ |plain|`, the msg_key field equals
+`SHA1(plain[0 : 32+length])[4:20]`, the msg_id has server parity, and `m`'s fields are the ones in
+`plain`. -/
+theorem openClient_sound {P : Prims} (hP : P.Ok) (key data : Bytes) (m : Msg)
+    (h : openClient P key data = .ok m) :
+    data.take 8 = authKeyId P key ∧
+    ∃ plain, plain = P.igeD (Spec.keyIv P 8 key (Spec.substr data 8 16)).1
+                           (Spec.keyIv P 8 key (Spec.substr data 8 16)).2 (data.drop 24) ∧
+      toSigned 32 (fromLE (Spec.substr plain 28 4)) = (m.body.length : Int) ∧
+      32 + m.body.length ≤ plain.length ∧
+      Spec.substr data 8 16 = Spec.substr (P.H (plain.take (32 + m.body.length))) 4 16 ∧
+      serverParity m.mid ∧
+      m = ⟨fromLE (Spec.substr plain 0 8), fromLE (Spec.substr plain 8 8), fromLE (Spec.substr plain 16 8),
+           fromLE (Spec.substr plain 24 4), Spec.substr plain 32 m.body.length⟩ := by
+  obtain ⟨dec, a⟩ := openClient_ok_elim hP key data m h
+  refine ⟨a.keyid, dec, a.dec_eq, ?_, a.inside, ?_, a.parity, ?_⟩
+  · rw [a.declared]; exact toSigned32_small _ a.len31
+  · rw [← slice_eq_substr' _ 4 20 (by omega)]; exact a.msgkey.symm
+  · have e1 := a.salt; have e2 := a.sid; have e3 := a.mid; have e4 := a.seq; have e5 := a.body
+    revert e1 e2 e3 e4 e5
+    cases m
+    intro e1 e2 e3 e4 e5
+    simp only [Msg.mk.injEq]
+    exact ⟨e1, e2, e3, e4, e5⟩
+
+example : openClient toyPrims (zeros 256) (Spec.serverSeal toyPrims (zeros 256) ⟨5, 6, 7, 9, [1, 2, 3]⟩ (zeros 13))
+    = .ok ⟨5, 6, 7, 9, [1, 2, 3]⟩ :=
+  openClient_sealDir8 toyPrims_ok _ _ _ (by simp) (by decide) (by decide) (by decide)
+
+/-- Clause "it never produces a message different from the one the key holder sealed": every
+accepted packet IS the specification's server-direction sealing, under this key, of exactly the
+message returned (with some block-aligning padding). An altered, truncated or re-keyed packet is
+therefore accepted only if it is itself such a sealing; that nobody without the key can make one is
+the cryptographic step that is not a theorem. -/
+theorem accepted_is_a_sealing {P : Prims} (hP : P.Ok) (key data : Bytes) (m : Msg)
+    (h : openClient P key data = .ok m) :
+    ∃ pad, data = Spec.serverSeal P key m pad ∧ (32 + m.body.length + pad.length) % 16 = 0 ∧
+      m.WF ∧ serverParity m.mid := by
+  obtain ⟨dec, a⟩ := openClient_ok_elim hP key data m h
+  obtain ⟨h1, h2⟩ := accepted_sealing hP a
+  exact ⟨_, h1, h2, accepted_wf a, a.parity⟩
+
+/-- … and conversely (C03): the acceptance set of `DeserializeEncrypted` under a 256-byte key is
+exactly the image of the specification's sealing on well-formed server-parity messages. -/
+theorem accepted_iff_sealing {P : Prims} (hP : P.Ok) (key data : Bytes) (m : Msg) (hk : key.length = 256) :
+    openClient P key data = .ok m ↔
+      ∃ pad, data = Spec.serverSeal P key m pad ∧ (32 + m.body.length + pad.length) % 16 = 0 ∧
+        m.WF ∧ serverParity m.mid := by
+  constructor
+  · exact accepted_is_a_sealing hP key data m
+  · rintro ⟨pad, rfl, hal, hm, hpar⟩
+    exact openClient_sealDir8 hP key m pad (by omega) hm hpar hal
+
+example := (accepted_iff_sealing toyPrims_ok (zeros 256)
+  (Spec.serverSeal toyPrims (zeros 256) ⟨5, 6, 7, 9, [1, 2, 3]⟩ (zeros 13)) ⟨5, 6, 7, 9, [1, 2, 3]⟩ (by simp)).mpr
+  ⟨zeros 13, rfl, by decide, by decide, by decide⟩
+
+/-! ## refusals that need no cryptography -/
+
+/-- Clause "re-keyed": a packet whose first 8 bytes are not this key's id is refused as such. -/
+theorem openClient_refuses_wrong_key (P : Prims) (key data : Bytes) (h : data.take 8 ≠ authKeyId P key)
+    (h8 : 8 ≤ data.length) :
+    openClient P key data = .err "wrongKey" := by
+  unfold openClient openClientG
+  simp only []
+  rw [(outer_pops data).1]
+  simp [h8, h]
+
+example : openClient toyPrims (zeros 256) [1, 2, 3, 4, 5, 6, 7, 8, 9] = .err "wrongKey" :=
+  openClient_refuses_wrong_key toyPrims _ _ (by decide) (by decide)
+
+/-- Clause "truncated (including shorter than the 24-byte header)": whatever the bytes, a packet
+shorter than key id + msg_key + two cipher blocks (the inner header alone is 32 bytes), or whose
+ciphertext is not whole blocks, is refused with an error. -/
+theorem openClient_refuses_short_or_unaligned {P : Prims} (hP : P.Ok) (key data : Bytes) (hk : key.length = 256)
+    (h : data.length < 56 ∨ (data.length - 24) % 16 ≠ 0) :
+    ∃ e, openClient P key data = .err e := by
+  cases hres : openClient P key data with
+  | err e => exact ⟨e, rfl⟩
+  | panic s =>
+    have := openClient_no_panic P key data hk
+    rw [hres] at this; cases this
+  | ok m =>
+    exfalso
+    obtain ⟨dec, a⟩ := openClient_ok_elim hP key data m hres
+    have hkv := keyIv_length hP 8 key ((data.drop 8).take 16)
+    have hdl : (data.drop 24).length = data.length - 24 := by simp
+    have h40 := a.len40
+    have hal := a.aligned
+    have hdeclen : dec.length = (data.drop 24).length := by
+      rw [a.dec_eq]; exact hP.igeD_len _ _ _ hkv.1 hkv.2 (by omega) a.aligned
+    have := a.inside
+    omega
+
+example : ∃ e, openClient toyPrims (zeros 256) (zeros 55) = .err e :=
+  openClient_refuses_short_or_unaligned toyPrims_ok _ _ (by simp) (Or.inl (by simp))
+
+/-! ## unencrypted messages -/
+
+/-- Clause `unenc_refuses`: `DeserializeUnencrypted` accepts a packet only if the length field equals
+the number of bytes that follow it and the msg_id has server parity; the accepted message is
+exactly what the packet holds. Hence an inconsistent length or a wrong parity is refused. -/
+theorem unenc_refuses (data : Bytes) (mid : Nat) (body : Bytes)
+    (h : Unenc.deserialize data = .ok (mid, body)) :
+    data.take 8 ++ (leBytes mid 8 ++ (leBytes body.length 4 ++ body)) = data ∧
+    serverParity mid ∧ mid < 2 ^ 64 ∧ body.length < 2 ^ 32 ∧ data.length = 20 + body.length := by
+  have key : data.take 8 ++ (leBytes mid 8 ++ (leBytes body.length 4 ++ body)) = data ∧
+      serverParity mid ∧ mid < 2 ^ 64 ∧ body.length < 2 ^ 32 := by
+    unfold Unenc.deserialize at h
+    split at h
+    · cases h
+    · rename_i h16
+      simp only [] at h
+      split at h
+      · cases h
+      · rename_i hpar
+        split at h
+        · cases h
+        · rename_i h20
+          split at h
+          · cases h
+          · rename_i hlen
+            injection h with h
+            injection h with hm hb
+            have hlen' : data.length - 20 = fromLE ((data.drop 16).take 4) := by omega
+            have l8 : ((data.drop 8).take 8).length = 8 := by simp; omega
+            have l4 : ((data.drop 16).take 4).length = 4 := by simp; omega
+            have hbl : body.length = fromLE ((data.drop 16).take 4) := by
+              rw [← hb, ← hlen']; simp
+            have r1 : leBytes mid 8 = (data.drop 8).take 8 := by
+              rw [← hm]; have := leBytes_fromLE ((data.drop 8).take 8); rwa [l8] at this
+            have r2 : leBytes body.length 4 = (data.drop 16).take 4 := by
+              rw [hbl]; have := leBytes_fromLE ((data.drop 16).take 4); rwa [l4] at this
+            refine ⟨?_, ?_, ?_, ?_⟩
+            · rw [r1, r2, ← hb]
+              have a := drop_eq_take_append_drop data 8 8
+              have b := drop_eq_take_append_drop data 16 4
+              simp only [Spec.substr] at a b
+              rw [← b, ← a]; exact List.take_append_drop 8 data
+            · unfold serverParity; rw [← hm]; omega
+            · rw [← hm]; have := fromLE_lt ((data.drop 8).take 8); rw [l8] at this; simpa using this
+            · rw [hbl]; have := fromLE_lt ((data.drop 16).take 4); rw [l4] at this; simpa using this
+  refine ⟨key.1, key.2.1, key.2.2.1, key.2.2.2, ?_⟩
+  have := congrArg List.length key.1
+  simp at this
+  omega
+
+example := unenc_refuses (Unenc.serialize 5 [1, 2, 3]) 5 [1, 2, 3] (by rfl)
+
+/-- the two refusals spelled out: a msg_id without server parity, or (with a whole 20-byte header
+present) a length field different from the number of body bytes, is an error -/
+theorem unenc_refuses_parity_and_length (data : Bytes) (h20 : 20 ≤ data.length)
+    (h : ¬ serverParity (fromLE ((data.drop 8).take 8)) ∨
+         fromLE ((data.drop 16).take 4) ≠ data.length - 20) :
+    Unenc.deserialize data = .error .parity ∨ Unenc.deserialize data = .error .length := by
+  unfold Unenc.deserialize serverParity at *
+  have c1 : ¬ data.length < 16 := by omega
+  have c2 : ¬ data.length < 20 := by omega
+  simp only [c1, c2, if_false]
+  by_cases hp : fromLE ((data.drop 8).take 8) % 4 ≠ 1 ∧ fromLE ((data.drop 8).take 8) % 4 ≠ 3
+  · simp [hp]
+  · simp only [hp, if_false]
+    have : data.length - 20 ≠ fromLE ((data.drop 16).take 4) := by
+      rcases h with h | h
+      · exfalso; omega
+      · exact fun e => h e.symm
+    simp [this]
+
+example : Unenc.deserialize (zeros 24) = .error .parity ∨ Unenc.deserialize (zeros 24) = .error .length :=
+  unenc_refuses_parity_and_length (zeros 24) (by simp) (Or.inl (by decide))
+
+end Mtv.Envelope
